@@ -21,7 +21,7 @@ def menu(nc):
     return out
 
 
-def mk(name, shares, extra_market=False, index_first=False, shock=True, drift=True):
+def mk(name, shares, extra_market=False, index_first=False, shock=True, drift=True, noexec_first=False):
     nc = len(shares)
     markets = [dict(name="M%d" % i, shares=sh, drift=(2.0 ** -7 if i == 1 and drift else 0.0)) for i, sh in enumerate(shares)]
     markets.append(dict(name="IDX", cls="ProbeIndexMarket", components=["M%d" % i for i in range(nc)]))
@@ -34,6 +34,13 @@ def mk(name, shares, extra_market=False, index_first=False, shock=True, drift=Tr
     if nc == 3:
         pa = [0, 1, 7, 9, 1]
         pb = [0, 2, 8, 10, 2]
+    if noexec_first:
+        # quotes built on M0 during a non-executing session (mid 101 != frozen price 100); the first executing
+        # step only touches M1, so M0's price changes at a clock advance without any book event
+        mn = mn + [[bl(0, 98)], [sl(0, 104)]]
+        k = len(mn)
+        pa = [k - 2, 0, 7, 0, 1]
+        pb = [k - 1, 0, 8, 0, 2]
     names = [m["name"] for m in markets]
     ags = [dict(name="A0", menu=mn, program=pa, markets=names), dict(name="A1", menu=mn, program=pb, markets=names)]
     ev = {}
@@ -42,6 +49,8 @@ def mk(name, shares, extra_market=False, index_first=False, shock=True, drift=Tr
         ev["SH"] = {"class": "FundamentalPriceShock", "target": "M0", "triggerTime": 2, "priceChangeRate": 0.5, "shockTimeLength": 1}
         s0["events"] = ["SH"]
     sessions = [S(0, 3, True, True, **s0), S(1, 2, True, True, maxNormalOrders=2)]
+    if noexec_first:
+        sessions = [S(0, 2, True, False, **s0), S(1, 3, True, True, maxNormalOrders=2)]
     obs, after_clock = make_index_observers()
 
     def post_setup(w):
@@ -65,6 +74,8 @@ def scenarios(tier):
     # constant fundamentals (no drift, no volatility) except for the shock on one component
     sc["index_nodrift:1-2"] = mk("index_nodrift:1-2", (1, 2), drift=False)
     sc["index_nodrift:2-5-1+X"] = mk("index_nodrift:2-5-1+X", (2, 5, 1), extra_market=True, drift=False)
+    sc["noexec_first:1-2"] = mk("noexec_first:1-2", (1, 2), noexec_first=True, shock=False)
+    sc["noexec_first:2-5-1"] = mk("noexec_first:2-5-1", (2, 5, 1), noexec_first=True)
     sc["index_first:1-2-5"] = mk("index_first:1-2-5", (1, 2, 5), index_first=True)
     sc["index_first:2-5+X"] = mk("index_first:2-5+X", (2, 5), extra_market=True, index_first=True)
     return sc
@@ -228,7 +239,7 @@ def on_exc(w):
 def run(tier, seed):
     res = common.Result("C17", tier, seed)
     sc = scenarios(tier)
-    deep = {k: v for k, v in sc.items() if k in ("index:1-2", "index:1-2-5+X", "index_first:1-2-5", "index_first:2-5+X")}
+    deep = {k: v for k, v in sc.items() if k in ("index:1-2", "index:1-2-5+X", "index_first:1-2-5", "index_first:2-5+X", "noexec_first:1-2")}
     b = 1 if tier == "quick" else 2
     run_r("C17", tier, seed, sc, [acc_C17], b, on_exc, [], RULE, res=res, label="share_grid")
     run_r("C17", tier, seed, deep, [acc_C17], b + 1, on_exc, WIT, RULE, res=res, label="share_grid_deeper")
